@@ -29,10 +29,12 @@ from collections import Counter
 from typing import Any, Callable, Generator
 
 from easynetwork.clients.async_tcp import AsyncTCPNetworkClient
+from easynetwork.clients.tcp import TCPNetworkClient
+from easynetwork.clients.udp import UDPNetworkClient
 from easynetwork.exceptions import DeserializeError, IncrementalDeserializeError
 from easynetwork.lowlevel.api_async.backend._common.fair_lock import FairLock
 from easynetwork.lowlevel.api_async.endpoints.stream import AsyncStreamEndpoint
-from easynetwork.protocol import StreamProtocol
+from easynetwork.protocol import DatagramProtocol, StreamProtocol
 from easynetwork.serializers.abc import AbstractIncrementalPacketSerializer
 from easynetwork.servers.async_tcp import AsyncTCPNetworkServer
 from easynetwork.servers.handlers import AsyncStreamRequestHandler
@@ -198,17 +200,17 @@ class _BurstReader:
 
 # ===================================================================================================== workload
 class _Workload:
-    def __init__(self, world: World, name: str):
+    def __init__(self, world: World, name: str, *, max_extra_senders: int = 4, max_packets: int = 4):
         self.world = world
         self.name = name
         # a third of the runs are fault-free baselines (profile 0): roomy link, greedy peer, no injected socket behaviour
         self.baseline = world.choose("profile", 3) == 0
-        self.nsenders = 2 + world.choose("nsenders", 4)
+        self.nsenders = 2 + world.choose("nsenders", max_extra_senders)
         self.capacity = 1 << 20 if self.baseline else (1 << 20, 7, 16, 64, 256)[world.choose("capacity", 5)]
         sizes = (0, 1, 5, 23, 90, 300)
         self.plan: list[list[tuple[int, tuple[int, int, int]]]] = []  # per sender: [(stagger ticks, packet)]
         for s in range(self.nsenders):
-            k = 1 + world.choose("npackets", 4)
+            k = 1 + world.choose("npackets", max_packets)
             lst = []
             for q in range(k):
                 lst.append((world.choose("stagger", 4), (s + 1, q, sizes[world.choose("size", len(sizes))])))
@@ -269,25 +271,73 @@ class _Workload:
             finally:
                 self.inflight -= 1
 
+    def sender_sync(self, idx: int, send_packet: Callable[[Any], Any]) -> None:
+        """thread body (threads engine: time.sleep is virtual)"""
+        import time
+
+        for stagger, packet in self.plan[idx]:
+            if stagger:
+                time.sleep(stagger * TICK)
+            self.world.log("send_call", self.name, packet[0], packet[1])
+            if self.inflight:
+                self.world.probe("call-while-%d-other-calls-outstanding" % min(self.inflight, 3))
+            self.inflight += 1
+            try:
+                send_packet(packet)
+            except Exception as exc:  # the property: every call succeeds
+                self.calls.append((packet[0], packet[1], type(exc).__name__))
+                self.world.log("send_raised", self.name, packet[0], packet[1], type(exc).__name__)
+            else:
+                self.calls.append((packet[0], packet[1], "ok"))
+                self.world.log("send_ok", self.name, packet[0], packet[1])
+                self.world.progress(1)
+            finally:
+                self.inflight -= 1
+
+    def run_threads(self, send_packet: Callable[[Any], Any]) -> None:
+        import threading
+
+        threads = [threading.Thread(target=self.sender_sync, args=(i, send_packet), name=f"c12-thread{i + 1}") for i in range(self.nsenders)]
+        for t in threads:
+            t.start()
+        for t in threads:
+            t.join()
+
+    def make_scheduler(self) -> Any:
+        """baton scheduler with drawn switch rate; on a coin flip line-level pre-emption inside the clients"""
+        from vsim.threads import Scheduler
+
+        w = self.world
+        if self.baseline:
+            return Scheduler(w, switch_den=1 << 30)  # never switches voluntarily: threads run one after the other
+        switch_den = (6, 3, 2)[w.choose("sched.switch_den", 3)]
+        if w.choose("sched.lines", 2):
+            sched = Scheduler(w, switch_den=switch_den, preempt_files=("clients/tcp.py", "clients/udp.py", "lowlevel/_utils.py"), max_preemptions=w.choose("sched.max_preempt", 4))
+            sched.preempt_den = (30, 10)[w.choose("sched.preempt_den", 2)]
+        else:
+            sched = Scheduler(w, switch_den=switch_den)
+        w.notes.update(switch_den=switch_den, preempt=(sched.preemptions_left, sched.preempt_den))
+        return sched
+
     async def run_senders(self, send_packet: Callable[[Any], Any]) -> None:
         loop = asyncio.get_running_loop()
         tasks = [loop.create_task(self.sender(i, send_packet), name=f"c12-sender{i + 1}") for i in range(self.nsenders)]
         await asyncio.gather(*tasks)
 
 
-def _check(wl: _Workload, reader: Any) -> None:
-    name = wl.name
+def _check_calls(wl: _Workload) -> tuple[list[tuple[int, int, int]], str]:
     sent = [p for lst in wl.plan for _, p in lst]
-    ctx = f"harness={name} plan={wl.world.notes}"
+    ctx = f"harness={wl.name} plan={wl.world.notes}"
     bad = [c for c in wl.calls if c[2] != "ok"]
     if bad:
-        raise Violation("every-call-succeeds", f"send_packet raised for (sender, seq, exception) {bad}; {ctx}", key=f"C12/{name}/call-raised/{bad[0][2]}")
+        raise Violation("every-call-succeeds", f"send_packet raised for (sender, seq, exception) {bad}; {ctx}", key=f"C12/{wl.name}/call-raised/{bad[0][2]}")
     if len(wl.calls) != len(sent):
-        raise HarnessError(f"C12 {name}: {len(wl.calls)} calls recorded for {len(sent)} packets")
-    wire = bytes(reader.received)
-    packets, kind, err = _decode_wire(wire)
-    if kind is not None:
-        raise Violation("wire-decodes", f"reference decoder: {err}; decoded so far {packets}; wire length {len(wire)} (sent {wl.total_bytes}); {ctx}", key=f"C12/{name}/wire/{kind}")
+        raise HarnessError(f"C12 {wl.name}: {len(wl.calls)} calls recorded for {len(sent)} packets")
+    return sent, ctx
+
+
+def _check_packets(wl: _Workload, packets: list[tuple[int, int, int]], sent: list[tuple[int, int, int]], ctx: str) -> None:
+    name = wl.name
     if Counter(packets) != Counter(sent):
         missing = sorted((Counter(sent) - Counter(packets)).elements())
         extra = sorted((Counter(packets) - Counter(sent)).elements())
@@ -297,6 +347,29 @@ def _check(wl: _Workload, reader: Any) -> None:
         if s in last and q <= last[s]:
             raise Violation("per-sender-order", f"sender {s}: sequence {q} after {last[s]} on the wire {packets}; {ctx}", key=f"C12/{name}/order")
         last[s] = q
+
+
+def _check(wl: _Workload, reader: Any) -> None:
+    """stream: `reader.received` is the byte stream the peer saw"""
+    sent, ctx = _check_calls(wl)
+    wire = bytes(reader.received)
+    packets, kind, err = _decode_wire(wire)
+    if kind is not None:
+        raise Violation("wire-decodes", f"reference decoder: {err}; decoded so far {packets}; wire length {len(wire)} (sent {wl.total_bytes}); {ctx}", key=f"C12/{wl.name}/wire/{kind}")
+    _check_packets(wl, packets, sent, ctx)
+
+
+def _check_datagrams(wl: _Workload, datagrams: list[bytes]) -> None:
+    """datagrams: one packet per datagram, none merged, none split"""
+    sent, ctx = _check_calls(wl)
+    packets = []
+    for i, d in enumerate(datagrams):
+        got, kind, err = _decode_wire(d)
+        if kind is not None or len(got) != 1:
+            what = kind or ("merged" if len(got) > 1 else "empty")
+            raise Violation("one-packet-per-datagram", f"datagram #{i} ({len(d)} bytes) decodes to {got} ({err or what}); {ctx}", key=f"C12/{wl.name}/datagram/{what}")
+        packets.append(got[0])
+    _check_packets(wl, packets, sent, ctx)
 
 
 def _finish(world: World, wl: _Workload, box: dict[str, Any], amain: Callable[[], Any]) -> None:
@@ -379,6 +452,84 @@ def _h_fairlock(world: World) -> None:
     _finish(world, wl, box, amain)
 
 
+# ===================================================================================================== threaded harnesses
+def _drain_world(world: World, done: Callable[[], bool]) -> None:
+    steps = 0
+    while not done() and world.has_events():
+        world.advance(None)
+        steps += 1
+        if steps > 100000:
+            raise StepCap("C12: draining the link after the run took more than 100000 events")
+
+
+def _h_threads_tcp(world: World) -> None:
+    """2-4 real threads (baton scheduler) calling send_packet on ONE blocking TCPNetworkClient"""
+    from vsim.harness import sync_engine
+
+    wl = _Workload(world, "threads-tcp", max_extra_senders=3, max_packets=3)
+    net = SimNet(world)
+    lib, psock = net.socketpair(capacity_ab=wl.capacity, delivery_ab=wl.delivery)
+    wl.configure(net, lib)
+    reader = _BurstReader(world, psock, wl.profile, wl.capacity)
+    sched = wl.make_scheduler()
+    world.sched = sched  # type: ignore[attr-defined]
+    try:
+        with sync_engine(world), sched:
+            client: Any = TCPNetworkClient(lib, wl.protocol)
+            try:
+                wl.run_threads(client.send_packet)
+            finally:
+                client.close()
+    except Deadlock as exc:
+        raise Violation(
+            "no-hang",
+            f"harness={wl.name}: the peer keeps reading but the sender threads never finish ({len(wl.calls)} of {sum(len(x) for x in wl.plan)} calls returned; "
+            f"peer got {len(reader.received)} of {wl.total_bytes} bytes): {exc}; plan={world.notes}",
+            key=f"C12/{wl.name}/hang",
+        ) from None
+    finally:
+        world.sched = None  # type: ignore[attr-defined]
+        if wl.baseline:  # Thread.start() waiting for its started-event is counted as contention by the scheduler: not a fault
+            world.stats.pop("lock_contention", None)
+    _drain_world(world, lambda: reader.saw_fin or reader.saw_rst)
+    _check(wl, reader)
+
+
+def _h_threads_udp(world: World) -> None:
+    """2-4 real threads calling send_packet on ONE blocking UDPNetworkClient: one datagram per packet"""
+    import socket as _socket
+
+    from vsim.harness import sync_engine
+
+    wl = _Workload(world, "threads-udp", max_extra_senders=3, max_packets=3)
+    net = SimNet(world)
+    peer = SimSocket(net, _socket.AF_INET, _socket.SOCK_DGRAM, 0, "peer")
+    peer.bind(("127.0.0.1", 7000))
+    lib = SimSocket(net, _socket.AF_INET, _socket.SOCK_DGRAM, 0, "lib")
+    lib.bind(("127.0.0.1", 0))
+    lib.connect(("127.0.0.1", 7000))
+    if wl.eagain_den or wl.eintr_den:
+        lib.fault_plan = CallFaults(world, eagain_den=wl.eagain_den, eintr_den=wl.eintr_den, ops=("sendto",))
+    protocol: Any = DatagramProtocol(_PacketSerializer(wl.piece))
+    sched = wl.make_scheduler()
+    world.sched = sched  # type: ignore[attr-defined]
+    try:
+        with sync_engine(world), sched:
+            client: Any = UDPNetworkClient(lib, protocol)
+            try:
+                wl.run_threads(client.send_packet)
+            finally:
+                client.close()
+    except Deadlock as exc:
+        raise Violation("no-hang", f"harness={wl.name}: sender threads never finish ({len(wl.calls)} calls returned): {exc}; plan={world.notes}", key=f"C12/{wl.name}/hang") from None
+    finally:
+        world.sched = None  # type: ignore[attr-defined]
+        if wl.baseline:  # Thread.start() waiting for its started-event is counted as contention by the scheduler: not a fault
+            world.stats.pop("lock_contention", None)
+    _drain_world(world, lambda: False)
+    _check_datagrams(wl, [bytes(d) for d, _ in peer.dgram_q])
+
+
 # ===================================================================================================== server harness
 class _FanOutHandler(AsyncStreamRequestHandler):
     def __init__(self, wl: _Workload, where: int):
@@ -440,4 +591,6 @@ HARNESSES = [
     Harness("client", _h_client, weight=1),
     Harness("server", _h_server, weight=1),
     Harness("endpoint-fairlock", _h_fairlock, weight=1),
+    Harness("threads-tcp", _h_threads_tcp, weight=2),
+    Harness("threads-udp", _h_threads_udp, weight=1),
 ]
